@@ -3,10 +3,10 @@
    Model: Model/Transforms.v (+ Template, Extractor, TfUtf8, TfUnescape); reference definitions:
    Spec/TransformsSpec.v, Spec/TfUtf8Spec.v, Spec/TfUnescapeSpec.v.  Go's regexp / glob are the
    universally quantified parameter [O : oracles]. *)
-From SV Require Import Model.Common Model.TfUtf8 Model.TfUnescape Model.Template Model.Extractor
+From SV Require Import Model.Common Model.TfUtf8 Model.TfUtf8Dec Model.TfUnescape Model.Template Model.Extractor
      Model.TinyRegex Model.Transforms
-     Spec.TfUtf8Spec Spec.TfUnescapeSpec Spec.TransformsSpec
-     Proofs.TfUtf8Proofs Proofs.TfUnescapeProofs Proofs.TemplateProofs Proofs.TfStringFacts
+     Spec.TfUtf8Spec Spec.TfUtf8DecSpec Spec.TfUnescapeSpec Spec.TransformsSpec
+     Proofs.TfUtf8Proofs Proofs.TfUtf8DecProofs Proofs.TruncateRunes Proofs.TfUnescapeProofs Proofs.TemplateProofs Proofs.TfStringFacts
      Proofs.ExtractorProofs Proofs.PatternProofs Proofs.TransformsProofs Proofs.LoadProofs.
 From Coq Require Import Permutation.
 Open Scope N_scope.
@@ -60,6 +60,75 @@ Print Assumptions C15_truncate_spec.
 Theorem C15_to_valid_utf8 : forall s, valid_utf8 (to_valid_utf8 s) /\ (valid_utf8 s -> to_valid_utf8 s = s).
 Proof. exact (fun s => conj (to_valid_is_valid s) (to_valid_id s)). Qed.
 Print Assumptions C15_to_valid_utf8.
+
+(* ---- truncate / CleanUTF8: no complete rune is ever removed (follow-up: seeded change C15/6) ---- *)
+
+(* utf8.DecodeRune as modelled with its VALUE (Model/TfUtf8Dec.v): on every well-formed sequence q (whatever
+   follows) it consumes exactly q, yields a Unicode scalar value (<= U+10FFFF, no surrogate) in shortest form,
+   and yields RuneError (U+FFFD) for exactly one of them, EF BF BD - so "r == RuneError" alone does not mean
+   "invalid" *)
+Theorem C15_decode_rune_spec : forall q t, utf8_seq q ->
+  snd (decode_rune (q ++ t)) = length q /\
+  scalar_value (fst (decode_rune (q ++ t))) /\ shortest_form (fst (decode_rune (q ++ t))) (length q) /\
+  (fst (decode_rune (q ++ t)) = rune_error <-> q = [239; 191; 189]).
+Proof.
+  exact (fun q t H => conj (decode_rune_seq_size q t H)
+          (conj (proj1 (decode_rune_scalar q t H)) (conj (proj2 (decode_rune_scalar q t H)) (decode_rune_error_iff q t H)))).
+Qed.
+Print Assumptions C15_decode_rune_spec.
+
+(* the clean-up written as the rune loop "skip iff r == RuneError && size == 1" IS the modelled
+   strings.ToValidUTF8 / CleanUTF8 that run_truncate calls, for every byte string *)
+Theorem C15_clean_loop_is_to_valid : forall s,
+  to_valid_by skip_go s = to_valid_utf8 s /\ clean_utf8_by skip_go s = clean_utf8 s.
+Proof. exact (fun s => conj (to_valid_by_go s) (clean_utf8_by_go s)). Qed.
+Print Assumptions C15_clean_loop_is_to_valid.
+
+(* ToValidUTF8(s, "") only deletes bytes, resynchronises at every byte that cannot continue a sequence, and
+   therefore keeps EVERY well-formed sequence of s, wherever it stands and whatever surrounds it *)
+Theorem C15_to_valid_keeps_every_rune : forall a q b, utf8_seq q ->
+  to_valid_utf8 (a ++ q ++ b) = to_valid_utf8 a ++ q ++ to_valid_utf8 b /\
+  subseq (to_valid_utf8 a) a /\ subseq (to_valid_utf8 b) b.
+Proof. exact (fun a q b H => conj (to_valid_keeps_rune a q b H) (conj (to_valid_subseq a) (to_valid_subseq b))). Qed.
+Print Assumptions C15_to_valid_keeps_every_rune.
+
+(* CleanUTF8: the result is s with some bytes deleted; nothing at all is deleted when the part after the last
+   ASCII byte is well formed; every well-formed sequence of s is in the result between what is left of its sides *)
+Theorem C15_clean_utf8_keeps_every_rune : forall s r, clean_utf8 s = Ok r ->
+  subseq r s /\
+  (valid_utf8 (skipn (find_last_end_of_ascii s) s) -> r = s) /\
+  (forall a q b, s = a ++ q ++ b -> utf8_seq q -> exists a' b', r = a' ++ q ++ b' /\ subseq a' a /\ subseq b' b).
+Proof. exact clean_utf8_keeps_all. Qed.
+Print Assumptions C15_clean_utf8_keeps_every_rune.
+
+(* the truncate transform: every well-formed sequence lying inside the first maxLen bytes is in the result at its
+   place (only bytes around it can have gone); and when those maxLen bytes are well formed after their last ASCII
+   byte the result is exactly these bytes ++ suffix *)
+Theorem C15_truncate_keeps_runes : forall loc maxlen suffix r, (0 <= maxlen)%Z ->
+  (Z.of_nat (length (getf r loc)) > maxlen + Z.of_nat (length suffix))%Z ->
+  let w := firstn (Z.to_nat maxlen) (getf r loc) in
+  (forall a q b, w = a ++ q ++ b -> utf8_seq q ->
+     exists a' b', run_truncate loc maxlen suffix r = Ok (set_field r loc ((a' ++ q ++ b') ++ suffix)) /\
+  subseq a' a /\ subseq b' b) /\
+  (valid_utf8 (skipn (find_last_end_of_ascii w) w) ->
+     run_truncate loc maxlen suffix r = Ok (set_field r loc (w ++ suffix))).
+Proof.
+  exact (fun loc maxlen suffix r Hm Hl =>
+    conj (fun a q b Hw Hq => truncate_keeps_runes loc maxlen suffix r a q b Hm Hl Hw Hq)
+         (truncate_valid_window loc maxlen suffix r Hm Hl)).
+Qed.
+Print Assumptions C15_truncate_keeps_runes.
+
+(* the variant of the loop that tests the rune value alone (seeded change C15/6) is NOT CleanUTF8: it changes a
+   valid string (a single U+FFFD) that CleanUTF8 leaves alone; and on the documented truncate shape
+   "12<U+FFFD><U+4E16><U+754C>World" cut at 8 it loses the U+FFFD *)
+Theorem C15_clean_rune_only_variant_refuted :
+  (exists s, valid_utf8 s /\ clean_utf8 s = Ok s /\ clean_utf8_by skip_rune_only s <> Ok s) /\
+  (let v := [49; 50; 239; 191; 189; 228; 184; 150; 231; 149; 140; 87; 111; 114; 108; 100] in
+   clean_utf8 (firstn 8 v) = Ok [49; 50; 239; 191; 189; 228; 184; 150] /\
+   clean_utf8_by skip_rune_only (firstn 8 v) = Ok [49; 50; 228; 184; 150]).
+Proof. exact (conj clean_rune_only_refuted truncate_rune_only_example). Qed.
+Print Assumptions C15_clean_rune_only_variant_refuted.
 
 (* ---- extractHead / extractTail ---- *)
 
